@@ -79,12 +79,15 @@ func note(kind, site string) {
 
 // fsRewrites maps qualified standard-library functions to their simulated replacement.
 var fsRewrites = map[string]string{
-	"io/ioutil.ReadFile": "simfs.ReadFile",
-	"os.ReadFile":        "simfs.ReadFile",
-	"io/ioutil.ReadDir":  "simfs.ReadDir",
-	"os.Stat":            "simfs.Stat",
-	"os.Lstat":           "simfs.Lstat",
-	"os.Readlink":        "simfs.Readlink",
+	"io/ioutil.ReadFile":    "simfs.ReadFile",
+	"os.ReadFile":           "simfs.ReadFile",
+	"io/ioutil.ReadDir":     "simfs.ReadDir",
+	"os.Stat":               "simfs.Stat",
+	"os.Lstat":              "simfs.Lstat",
+	"os.Readlink":           "simfs.Readlink",
+	"os.ReadDir":            "simfs.ReadDirEntries",
+	"path/filepath.Walk":    "simfs.Walk",
+	"path/filepath.WalkDir": "simfs.WalkDir",
 }
 
 // fsForbidden are file-system calls the simulated disk does not model; meeting one outside the
@@ -92,7 +95,7 @@ var fsRewrites = map[string]string{
 var fsForbidden = map[string]bool{
 	"os.Open": true, "os.OpenFile": true, "os.Create": true, "os.WriteFile": true, "io/ioutil.WriteFile": true,
 	"os.Remove": true, "os.RemoveAll": true, "os.Mkdir": true, "os.MkdirAll": true, "os.Rename": true,
-	"os.ReadDir": true, "path/filepath.Walk": true, "path/filepath.WalkDir": true, "path/filepath.Glob": true,
+	"path/filepath.Glob":         true,
 	"path/filepath.EvalSymlinks": true, "io/ioutil.TempFile": true, "io/ioutil.TempDir": true, "os.Chdir": true,
 	"os.Symlink": true, "os.Truncate": true,
 }
@@ -517,7 +520,7 @@ func (c *fileCtx) apply() []byte {
 				continue
 			}
 		}
-		ka := map[string]string{"runtime": "NumCPU", "reflect": "Select", "net": "Dial", "time": "Sleep", "io/ioutil": "ReadFile", "os": "Stat", "sync": "NewCond"}
+		ka := map[string]string{"runtime": "NumCPU", "reflect": "Select", "net": "Dial", "time": "Sleep", "io/ioutil": "ReadFile", "os": "Stat", "sync": "NewCond", "path/filepath": "Join"}
 		if fn, ok := ka[path]; ok {
 			if name == "" {
 				name = filepath.Base(path)
